@@ -56,7 +56,8 @@ package kvindex
 //@   option prelude=keys,kv,idxkeys,ieee,json
 //@   option load=kvi
 //@   option globals=kvindex
-//@   modifies KV. SH. alloc H.kvindex.Doc.
+//@   modifies KV. SH.Str alloc H.kvindex.Doc.
+//@   ensures fresh: freshonly("SH.Str") && freshonly("H.kvindex.Doc.Entries")
 //@   requires nonnil: idx != nil && idx.Fields != nil && tx != nil
 //@   requires paths: forall f:Str :: has(idx.Fields, f) ==> len(idx.Fields[f]) >= 1
 //@   loop 1 invariant nw: kvwrites() == old(kvwrites())
